@@ -214,7 +214,7 @@ def body(chk):
     from harness import envrun
 
     envrun.run(chk, {"types", "unloadable", "spurious_error"})
-    chk.finish(rule="every variable and attribute of every node of trees for levels 1.1 / 1.5 / 3.1, 1-4 images, three projection "
+    chk.finish(rule="every variable and attribute of every node of trees for levels 1.1 / 1.5 / 3.1 (and level 1.0 / CI*2 when the reader returns a tree for it), 1-4 images, three projection "
                     "designators, several value plans; evaluations = variables + attributes inspected; distinct = (level, images, "
                     "plan, designator)", exhaustive=False, extra={"variables": nv, "attributes": na})
 
